@@ -3,7 +3,8 @@
    A frame's rows are written in reverse pop order (Container.step, CT_FRAME:
    [List.rev rows]); flush receives the bars in pop order. *)
 From Coq Require Import Sorted.
-From MPB Require Import Base BaseProofs BarState Container ContainerProofs.
+From Coq Require Import Permutation.
+From MPB Require Import Base BaseProofs BarState Container ContainerProofs PQueue PQueueProofs.
 
 (* pops of a cycle whose heap was in order come in non-increasing priority:
    rows from top to bottom are in non-decreasing priority value *)
@@ -37,6 +38,40 @@ Theorem C06_iteration_restores_order : forall s b p s',
   step s (HM_POP b p) = Some s' -> heap s' = [] -> hdirty s' = false /\ iterating s' = false.
 Proof. exact last_pop_cleans. Qed.
 Print Assumptions C06_iteration_restores_order.
+
+(* ---- the priority queue itself: priority_queue.go under container/heap's Push / Pop / Fix (PQueue.v, tied to the
+   code by the differential pq family: identical slice order and index fields after every operation) ---- *)
+
+(* every run of pushes (of bars not in the queue), pops and immediate fixes keeps the heap order, the bars' index
+   fields and the bookkeeping of departed bars *)
+Theorem C06_queue_invariant : forall ops q seen,
+  QInv q seen -> run_ok q ops -> QInv (fst (qrun q ops)) (fold_left seen_after ops seen).
+Proof. exact qrun_inv. Qed.
+Print Assumptions C06_queue_invariant.
+
+(* Pop removes a bar of the greatest priority and keeps the rest *)
+Theorem C06_pop_returns_a_maximum : forall q x q',
+  hp (arr q) (length (arr q)) -> pop q = Some (x, q') ->
+  hp (arr q') (length (arr q')) /\ Permutation (arr q) (x :: arr q') /\ (forall y, In y (arr q) -> (snd y <= snd x)%Z).
+Proof. exact pop_ok. Qed.
+Print Assumptions C06_pop_returns_a_maximum.
+
+(* the ordered iteration of a cycle: all the bars, in non-increasing priority — rows top to bottom in non-decreasing
+   priority value *)
+Theorem C06_ordered_iteration_is_sorted : forall fuel q,
+  hp (arr q) (length (arr q)) -> (length (arr q) <= fuel)%nat ->
+  Permutation (drain fuel q) (arr q) /\ Sorted.StronglySorted (fun x y => (snd y <= snd x)%Z) (drain fuel q).
+Proof. exact drain_sorted. Qed.
+Print Assumptions C06_ordered_iteration_is_sorted.
+
+(* an immediate priority change restores the heap order whatever the new priority is *)
+Theorem C06_fix_restores_order : forall q0 i p,
+  hp (arr q0) (length (arr q0)) -> (i < length (arr q0))%nat ->
+  let q := set_priority q0 i p in
+  hp (arr (fix_at q i)) (length (arr q0)) /\ Permutation (arr (fix_at q i)) (arr q) /\
+  length (arr (fix_at q i)) = length (arr q0).
+Proof. exact fix_ok. Qed.
+Print Assumptions C06_fix_restores_order.
 
 Example C06_nonvacuous_priority_change :
   exists s, run (init_cst false true false)
